@@ -9,5 +9,9 @@ MkMsg(i, len) == IF len = 1 THEN <<10 * i>> ELSE <<10 * i, 255>>
 MCSents == {[i \in 1..3 |-> MkMsg(i, L[i])] : L \in [1..3 -> 1..2]}
 \* for -simulate (spec -> code): also repeated contents and 1..4 messages
 MCSentsSim == UNION {[1..n -> {<<10>>, <<171, 205>>, <<0, 255, 10>>}] : n \in 1..4}
+\* thorough tier: 4 messages of length 1..3 and 5 messages of length 1..2
+MkMsg3(i, len) == [j \in 1..len |-> IF j = 1 THEN 10 * i ELSE 250 + j]
+MCSentsBig == {[i \in 1..4 |-> MkMsg3(i, L[i])] : L \in [1..4 -> 1..3]}
+              \cup {[i \in 1..5 |-> MkMsg(i, L[i])] : L \in [1..5 -> 1..2]}
 MCTimeouts == {0, 1000}
 =============================================================================
